@@ -102,13 +102,21 @@ class OpContainerDict(e1.Op):
         c = [s for s, v in g.task.slots.items() if meta_of(v) is not None and not isinstance(v, fpeps.DoublePepsTensor)]
         if not c:
             return None
-        return {"op": "c_dict", "in": [g.rng.choice(c)], "args": {"level": g.rng.choice([0, 1, 2]), "route": g.rng.choice(["method", "function"])}}
+        return {"op": "c_dict", "in": [g.rng.choice(c)], "args": {"level": g.rng.choice([0, 1, 2]), "route": g.rng.choice(["method", "function", "legacy"])}}
 
     def run(self, task, rec, ins):
         a, ar = ins[0], rec["args"]
-        d = a.to_dict(level=ar["level"])
-        before = core.canon(d)
-        x = type(a).from_dict(d) if ar["route"] == "method" else yastn.from_dict(d)
+        if ar["route"] == "legacy" and hasattr(a, "save_to_dict"):
+            import warnings
+            with warnings.catch_warnings():
+                warnings.simplefilter("ignore")
+                d = a.save_to_dict()
+                before = core.canon(d)
+                x = mps.load_from_dict(task.cfg, d) if isinstance(a, mps.MpsMpoOBC) else fpeps.load_from_dict(task.cfg, d)
+        else:
+            d = a.to_dict(level=ar["level"])
+            before = core.canon(d)
+            x = type(a).from_dict(d) if ar["route"] == "method" else yastn.from_dict(d)
         if core.canon(d) != before and not getattr(core.current_world(), "generating", False):
             raise core.Violation(PROP, "O1-dict-argument-modified", "%s.from_dict changed the dictionary it was given (level %d, route %s)"
                                  % (type(a).__name__, ar["level"], ar["route"]), op="c_dict")
